@@ -1,15 +1,22 @@
 """C06 — Craig-Bampton checks are right on valid models and flag invalid ones (DESIGN.md 6/C06).
 
-Tie: numeric correspondence (1e-9 * scale; exact for index vectors) between the Lean model
-lean/PyYetiVerif/Model/RigidBody.lean, run at Float through Drivers/C06.lean, and
+Tie: numeric correspondence (1e-9 * scale; exact for index vectors, trimmed-DOF lists and warning flags) between the Lean
+model lean/PyYetiVerif/Model/RigidBody.lean + Model/RigidBodyGuyan.lean, run at Float through Drivers/C06.lean, and
   * cb.cgmass, n2p.rbgeom, n2p.rbmove, n2p.rbgeom_uset, cb.cbreorder, cb.cbconvert,
   * cb.cbcheck on free 3-D structures produced by an independent generator in this file (random
     grids, 6-DOF springs through rigid offsets so K*RB = 0 by construction, lumped masses with
     unequal translational masses in some cases, rectangular / cylindrical / spherical output
-    systems via n2p.addgrid, Craig-Bampton reduction in plain numpy).
-The model-free oracle compares the same API results with the generator's ground truth, requires
-grounded / geometry-perturbed variants to be flagged, checks the cbtf equations of motion and the
-inverse / invariance laws of cbconvert and cbreorder.
+    systems via n2p.addgrid, Craig-Bampton reduction in plain numpy; optionally one special boundary grid: massless with
+    stiffness (Guyan reduction in _solve_eig), ball-jointed (null columns in _solve_eig, zero-stiffness trimming in
+    _cbcoordchk), or a spring to ground on all six / on ONE degree of freedom) - every returned array and every numeric
+    table of the printed report (coordinates, movement checks, three 6x6 masses, cg, radii of gyration, inertia, K*RB
+    tables and their sums, effective-mass table with totals, matrix value checks, trimmed DOF lists),
+  * cb._solve_eig directly (null columns, massless DOF, back expansion), cb.rbdispchk, cb.mk_net_drms (net force recovery
+    matrices in both unit systems), cb.rbmultchk, cb.cbtf at exactly 0 Hz.
+The model-free oracle compares the same API results with the generator's ground truth (incl. the printed tables, free-free
+frequencies against the QZ spectrum of the full pencil, mk_net_drms against resultants / rigid mass / cg motion), requires
+grounded / geometry-perturbed variants to be flagged, checks the cbtf equations of motion and the inverse / invariance laws
+of cbconvert and cbreorder.
 """
 import io
 import json
@@ -32,41 +39,64 @@ THEOREMS = ["PyYetiVerif.C06." + n for n in (
     # extension round: _solve_eig (Guyan reduction, null columns), _cbcoordchk trimming, rbdispchk, mk_net_drms,
     # rbmultchk, cbtf at 0 Hz
     "guyan_preserves_eigenpairs guyanK_eq_blocks psiResid_eq_blocks guyanExpand_rows null_trim_sound nullExpand_rows "
-    "coordchk_trim_sound trimRef_spec rbdispchk_recovers_coords rbdispchk_recovers_grid net_force_is_resultant "
+    "coordchk_trim_sound trimRef_spec rbdispchk_recovers_coords rbdispchk_recovers_grid coordchk_coords_local net_force_is_resultant "
     "net_drm_is_resultant net_force_is_resultant_local rbmult_eq_mul cbtf_static_limit cbtfStaticFrc_eq"
 ).split()]
 TRUSTED = [
-    "correspondence harness harness/props/c06.py (numeric comparison 1e-9*scale, exact for index vectors) and its "
-    "structure generator / numpy Craig-Bampton reduction (ground truth of the oracle)",
-    "scipy.linalg.solve specification koo*X = -kor (residual measured every run); the Float driver uses its own "
-    "Gaussian elimination",
-    "eigen-solver specification: the first six vectors of scipy.sparse.linalg.eigsh(k, p, m, sigma=1) span null(K) "
-    "of a free model (rbe is compared with the model's stiffness-based modes, which the theorem "
-    "stiffness_rb_eq_geometry identifies with them); scipy.linalg.eigh inside cgmass(all6) (principal inertias are "
-    "compared with numpy eigvalsh of the ground truth only)",
-    "ode.SolveUnc.fsolve specification (property C02): cbtf's q-set solve is checked by the oracle's EOM residual",
-    "n2p.addgrid / make_uset produce the uset rows (inputs of the model; their geometry is property C14)",
+    "correspondence harness harness/props/c06.py (numeric comparison 1e-9*scale, exact for index vectors / trimmed DOF lists / "
+    "warning flags; printed tables at half a unit of the last printed digit) and its structure generator / numpy Craig-Bampton "
+    "reduction (ground truth of the oracle)",
+    "scipy.linalg.solve specifications koo*X = -kor (_cbcoordchk) and (-kzz)*psi = kzx (_solve_eig): residuals measured every "
+    "run; the Float driver uses its own Gaussian elimination, and the adjugate inverse for the 3x3 systems of _rbdispchk",
+    "eigen-solver specification: scipy.sparse.linalg.eigsh(k, p, m, sigma=1) returns eigenpairs of the REDUCED pencil, the "
+    "first six spanning null(K) of a free model (rbe is compared with the model's stiffness-based modes; the back-expanded "
+    "vectors are checked against the FULL pencil and its QZ spectrum by the oracle); scipy.linalg.eigh inside cgmass(all6) "
+    "(principal inertias / radii are compared with numpy eigvalsh of the ground truth only)",
+    "ode.SolveUnc.fsolve specification (property C02): cbtf's q-set solve is checked by the oracle's EOM residual; at 0 Hz "
+    "the specification is Kqq dq = -Mqb a (the harness solves the model's right-hand side)",
+    "n2p.addgrid / make_uset produce the uset rows (inputs of the model; their geometry is property C14); n2p.formrbe3 and "
+    "n2p.find_xyz_triples (used by mk_net_drms.ifatm and rbmultchk's printed coordinates) are property C14 and enter the "
+    "oracle only",
     "ytools.mattype symmetry test inside cgmass is not modelled (inputs are symmetric; an asymmetric probe must raise)",
 ]
 RULE = (
     "streams: cgmass (docstring-form matrices with unequal mx,my,mz, rigid transforms of cg masses, structure "
     "masses), rbgeom/rbmove (random grids, reference by index or vector), rbgeom_uset (addgrid tables with basic/"
     "rectangular/cylindrical/spherical output systems incl. grids on the polar axis), cbreorder (index-encoding "
-    "matrices; first/last/drm/lq=0/permuted b), cbconvert (m2e/e2m/tuple; drm), cbcheck (generated free structures: "
-    "1-3 boundary grids, boundary first/last/interleaved and grid-permuted bseto, any boundary grid as bref, "
-    "rb_norm, uref by id or vector, conv None/m2e/e2m/tuple, reorder on/off, 0..all modes). A case is one call "
+    "matrices; first/last/drm/lq=0/permuted b), cbconvert (m2e/e2m/tuple; drm; random b order incl. component-major), "
+    "cbcheck (generated free structures: "
+    "1-4 boundary grids, boundary first/last/interleaved and grid-permuted bseto, any boundary grid as bref, "
+    "rb_norm, uref by id or vector, conv None/m2e/e2m/tuple, reorder on/off, 1..all modes; variants valid / grounded on six "
+    "DOF / grounded through one DOF / misplaced boundary grid; 40% with one special boundary grid: massless6, massless-rot, "
+    "pinned, and the pinned grid as reference = RuntimeError), _solve_eig (symmetric pencils with 0-3 null columns and 0-4 "
+    "massless DOF, also -0.0 entries), rbdispchk (1-5 nodes in identity / rotated / general bases, exact rows and small or "
+    "large deviations around the warning threshold, three tolerances), mk_net_drms (generated structures, b-set in any "
+    "order, conv, bsubset, ref by id/vector/origin, sccoord rotation), rbmultchk (bset first/last/vector/full rb), cbtf at "
+    "0 Hz (b-set first/last/interleaved/permuted, full damping). A case is one call "
     "compared on all returned quantities; non-trivial = not the identity configuration (a non-zero offset / "
-    "non-basic system / non-sorted bseto / conversion / at least one mode); distinct by the generated input"
+    "non-basic system / non-sorted bseto / conversion / at least one mode / a trimmed DOF); distinct by the generated input"
 )
 ASSUMPTIONS = [
-    "generated structures are well conditioned (cond(koo) <= 1e8, stiffness eigenvalues far from the eigsh shift 1.0); "
-    "others are skipped and counted",
+    "generated structures are well conditioned (cond(koo) <= 1e8, stiffness eigenvalues far from the eigsh shift 1.0, "
+    "cond of the stiffness of massless DOF <= 1e8 / 1e6); others are skipped and counted",
     "b-set vectors are duplicate-free and inside the matrix; boundary grids carry all six DOF, translations first",
+    "zero-stiffness boundary DOF are rotations (a ball joint): a boundary grid without TRANSLATIONAL stiffness makes the 3x3 "
+    "translation block of rbdispchk singular (scipy raises LinAlgError) - outside the generated domain, the model replies "
+    "raise-singular",
+    "uset tables list their grids by ascending id; mk_net_drms(reorder=False) takes the uset in the order of the bset vector, "
+    "cbcheck in ascending matrix position; an RBE3 on the translations of exactly two boundary grids is rank deficient, so "
+    "rbe3_indep_dof=123456 is passed there",
+    "a printed comparison next to a threshold (refpoint_chk, rbdispchk warning) within 1e-6..1e-3 relative is skipped and counted",
 ]
 PARTIAL = (
-    "partial: eigsh/eigh/solve/fsolve are external kernels entering through stated specifications (residuals measured "
-    "at run time); the printed report is compared at print precision only; Guyan reduction of massless DOF in "
-    "_solve_eig and zero-stiffness trimming in _cbcoordchk are not modelled (not generated)"
+    "partial: eigsh/eigh/solve/fsolve are external kernels entering through stated specifications (residuals measured at run "
+    "time): guyan_preserves_eigenpairs / null_trim_sound take eigenpairs of the reduced pencil as given, rbe and the free-free "
+    "frequencies are compared numerically (model's stiffness-based modes, QZ spectrum); principal inertias / principal radii of "
+    "gyration (eigh in cgmass) and mk_net_drms' ifatm (formrbe3), cgatm (a linear solve), cglf rows and labels, rbmultchk's "
+    "coordinate detection (find_xyz_triples) are not modelled - oracle only; the printed report is by nature comparable at print "
+    "precision only; rbdispchk's 3x3 solve is modelled by the adjugate inverse (numeric tie); "
+    "net_force_is_resultant_local covers rectangular output systems (cylindrical / spherical ones through the numeric stream); "
+    "cbcheck(reorder=False) with the b-set not leading is the open finding F33"
 )
 MANIFEST = {
     "level_text": "Proof (Lean 4, standard axioms) about a polymorphic executable model of the rigid-body and "
@@ -81,13 +111,33 @@ MANIFEST = {
     "stiffness-based modes equal RB and the Schur complement vanishes, and the Schur complement is zero iff such an "
     "RB exists, i.e. grounding shows in exactly the quantity refpoint_chk tests (stiffness_rb_eq_geometry, "
     "grounding_iff); effective mass plus boundary residual equals the rigid-body mass diagonal (effmass_total); cbtf's "
-    "recovered force satisfies the full EOM given the q-set solve specification and K_bq = 0 (cbtf_satisfies_eom). "
+    "recovered force satisfies the full EOM given the q-set solve specification and K_bq = 0 (cbtf_satisfies_eom), and at "
+    "exactly 0 Hz the force is Mbb*a with the statically deflected modal DOF (cbtf_static_limit, cbtfStaticFrc_eq). "
+    "Extension: for M = diag(Mxx, 0) the Guyan-reduced pencil (Kxx + Kxz psi, Mxx) of _solve_eig has exactly the finite "
+    "eigenpairs of (K, M), eigenvectors recovered by vz = psi vx, and the model's guyanK / psiResid / guyanExpand are those "
+    "block expressions (guyan_preserves_eigenpairs, guyanK_eq_blocks, psiResid_eq_blocks, guyanExpand_rows); null columns: "
+    "trimmed eigenpairs extended by zero rows are eigenpairs of the full pencil (null_trim_sound, nullExpand_rows); the "
+    "zero-stiffness trimming of _cbcoordchk returns the true modes on every kept DOF, leaves K*rbs = 0 and the refpoint "
+    "check intact, and is necessary because diag(Koo, 0) is singular (coordchk_trim_sound, trimRef_spec); rbdispchk returns "
+    "exactly the offset of a node, zero error and no warning from rigid-body rows in any non-singular basis, hence for the "
+    "rows rbgeom_uset produces in rectangular, cylindrical and spherical systems (rbdispchk_recovers_coords, "
+    "rbdispchk_recovers_grid, reusing C14's factorisation), and the coordinates _cbcoordchk prints are the offsets from the "
+    "reference grid in the reference grid's local axes (coordchk_coords_local); mk_net_drms' rb.T @ F is the resultant force and moment at the "
+    "reference point, also applied through Mcb[b] to any response vector and for local rectangular output systems "
+    "(net_force_is_resultant, net_drm_is_resultant, net_force_is_resultant_local); rbmultchk's product (rbmult_eq_mul). "
     "Tied to the source by numeric correspondence on generated free structures and direct API streams.",
     "level_note": "Trusted: Lean kernel; propext, Classical.choice, Quot.sound; the Python harness and its structure "
     "generator; specifications of solve/eigsh/eigh/fsolve (measured each run). Floating-point round-off is outside the "
-    "theorems (measured by the 1e-9 correspondence).",
+    "theorems (measured by the 1e-9 correspondence). Only tied / measured, not proved: eigsh's eigenpairs of the reduced pencil "
+    "(checked against the full pencil and its QZ spectrum), rbe, free-free frequencies, principal inertias, the printed report "
+    "(every numeric table parsed and compared with the model and with ground truth at print precision), mk_net_drms ifatm / "
+    "cgatm / weight / height (oracle against rigid-body ground truth), rbmultchk's printed coordinates. Open findings reported "
+    "by the oracle: F33 (cbcheck reorder=False, b-set not leading) and four new families (mk_net_drms reorder with a "
+    "non-involution order, mk_net_drms cgatm rotational rows for ref != origin, mk_net_drms ifatm for a single grid not in "
+    "columns 0..5, cbcheck without modal DOF).",
     "technique": "Lean 4 proof (ring/field identities on explicit 6x6 entries, Mathlib block-matrix algebra, "
-    "permutation matrices) + numeric differential correspondence with pyyeti.cb / n2p on generated structures",
+    "permutation matrices, Schur complements, reuse of C14's 3x3 frame lemmas) + numeric differential correspondence with "
+    "pyyeti.cb / n2p on generated structures, incl. full parsing of cbcheck's report",
 }
 
 
@@ -895,7 +945,11 @@ def conv_cases(ctx, rng, n):
         lq = int(rng.choice([0, 2, 7]))
         lt = lb + lq
         b = rng.choice(lt, lb, replace=False)
-        if rng.random() < 0.5:
+        if i % 5 == 4:
+            # component-major storage: all boundary translations, then all boundary rotations, then the modal DOF
+            ngr = lb // 6
+            b = np.array([(3 * (kk // 6) + kk % 6) if kk % 6 < 3 else (3 * ngr + 3 * (kk // 6) + kk % 6 - 3) for kk in range(lb)])
+        elif rng.random() < 0.5:
             b = np.sort(b)
         drm = bool(rng.random() < 0.35)
         nr = int(rng.integers(1, 6)) if drm else lt
@@ -1812,6 +1866,9 @@ def correspondence(ctx):
             ctx.disagree("cbconvert", dict(inp, M_entry=float(c["M"].ravel()[j]), index=j), float(got.ravel()[j]), float(want.ravel()[j]))
         ctx.case(("conv", c["lt"], tuple(c["b"]), str(c["conv"]), c["drm"]),
                  branch="convert:" + ("tuple" if isinstance(c["conv"], list) else c["conv"]) + ("-drm" if c["drm"] else ""))
+        ngr_ = len(c["b"]) // 6
+        if ngr_ > 1 and c["b"][:6] == [0, 1, 2, 3 * ngr_, 3 * ngr_ + 1, 3 * ngr_ + 2]:
+            ctx.count("convert:component-major")
     # F
     for case in cb_cases:
         spec = case["spec"]
@@ -1956,7 +2013,7 @@ def correspondence(ctx):
         "cgmass:doc-unequal", "cgmass:rigid-equal", "rbgeom:ref-index", "rbgeom:ref-vector",
         "uset:rect", "uset:cyl", "uset:sph", "uset:basic", "uset:cyl-on-axis", "uset:sph-on-axis",
         "reorder:first", "reorder:last", "reorder:lq0", "reorder:first-drm", "reorder:last-drm",
-        "convert:m2e", "convert:e2m", "convert:tuple", "convert:tuple-drm",
+        "convert:m2e", "convert:e2m", "convert:tuple", "convert:tuple-drm", "convert:component-major",
         "nbg:1", "nbg:2", "nbg:3", "layout:first", "layout:last", "layout:mixed", "variant:valid",
         "variant:grounded", "variant:perturbed", "conv:None", "conv:m2e", "conv:e2m", "conv:tuple",
         "uref:id", "uref:vec", "uref:origin", "rbnorm:None", "rbnorm:True", "rbnorm:False",
